@@ -1,6 +1,8 @@
 package main
 
 import (
+	"go/types"
+
 	"golang.org/x/tools/go/ssa"
 )
 
@@ -17,6 +19,9 @@ func (t *fnTrans) lockEffect(ins ssa.Instruction, ct *Contract, env *specEnv) {
 		return
 	}
 	m := recv.C[0]
+	if _, isIface := under(recv.T).(*types.Interface); isIface {
+		m = recv.C[1] // the lock object behind a sync.Locker
+	}
 	hs := "(Array Int Int)"
 	t.eng.heapSort["$held"] = hs
 	h := t.heapGet(t.st, "$held", hs)
